@@ -4,6 +4,7 @@ package value
 
 import (
 	"bytes"
+	"io"
 
 	"github.com/lugu/qiloop/internal/zzverif/sym"
 )
@@ -49,7 +50,18 @@ func c08Value(maxStr int) {
 	sym.Assert(v.Write(&buf) == nil, "encode-ok")
 	enc := buf.Bytes()
 	k := sym.Concrete(sym.Int("cut", 0, len(enc)-1))
-	_, err := NewValue(bytes.NewReader(enc[:k]))
+	// the truncated input comes from a bytes.Reader, a bytes.Buffer (what stubs and proxies decode
+	// from) or a plain stream
+	var src io.Reader
+	switch sym.Choose("source-kind", 3) {
+	case 0:
+		src = bytes.NewReader(enc[:k])
+	case 1:
+		src = bytes.NewBuffer(append([]byte{}, enc[:k]...))
+	default:
+		src = &zzPlainReader{data: enc[:k]}
+	}
+	_, err := NewValue(src)
 	sym.Assert(err != nil, label)
 	sym.Reach("cut-checked")
 }
